@@ -120,3 +120,7 @@ Proof.
 Qed.
 
 Print Assumptions compute_float_sound_floor.
+
+Example ex_floor_hyps : lfmt_ok F64 = true /\ 0 < 3 < 2 ^ 64 /\
+  SMALLEST_POWER_OF_TEN F64 <= -324 <= LARGEST_POWER_OF_TEN F64 /\ (-324 < -27 \/ 55 < -324).
+Proof. split; [exact lfmt_ok_F64|]. rewrite p2_64. cbn. lia. Qed.
